@@ -65,6 +65,21 @@ class Obligation:
         return d
 
 
+def _has_quantifier(e):
+    seen = set()
+    stack = [e]
+    while stack:
+        x = stack.pop()
+        if z3.is_quantifier(x):
+            return True
+        i = x.get_id()
+        if i in seen:
+            continue
+        seen.add(i)
+        stack.extend(x.children())
+    return False
+
+
 def model_to_dict(m, limit=60):
     out = {}
     for d in m.decls()[: limit * 4]:
@@ -184,10 +199,21 @@ class Session:
         return ob
 
     # -- solver-backed obligations ------------------------------------------------------------
-    def _solve(self, hyps, goal_negation, strings=False):
-        """Return (verdict, backend, seconds, model, smt2). verdict in unsat/sat/unknown."""
+    def _solve(self, hyps, goal_negation, strings=False, fallback=True, timeout_ms=None):
+        """Return (verdict, backend, seconds, model, smt2). verdict in unsat/sat/unknown.
+
+        Proof search: z3 with E-matching on the stated triggers (model-based quantifier instantiation off, so that
+        non-theorems come back quickly); `unknown` is re-sent to cvc5. A counter-model is looked for on the ground
+        part (quantified hypotheses dropped): it is only a *candidate* and is reported as sat only when the
+        quantifier-free part alone is satisfiable and no quantified hypothesis exists; otherwise the verdict stays
+        unknown and the caller's replay search decides."""
+        hyps = list(hyps)
+        quantified = [h for h in hyps if _has_quantifier(h)]
         s = z3.Solver()
-        s.set("timeout", self.query_timeout_ms)
+        s.set("timeout", timeout_ms or self.query_timeout_ms)
+        if quantified:
+            s.set("smt.mbqi", False)
+            s.set("auto_config", False)
         for h in hyps:
             s.add(h)
         s.add(goal_negation)
@@ -198,26 +224,41 @@ class Session:
             r = z3.unknown
             self.notes.append(f"z3 exception: {e}")
         dt = time.time() - t
-        verdict = {z3.unsat: "unsat", z3.sat: "sat"}.get(r, "unknown")
+        verdict = "unsat" if r == z3.unsat else ("sat" if r == z3.sat else "unknown")
         backend = "z3"
         model = s.model() if r == z3.sat else None
+        if verdict == "sat" and quantified:
+            verdict = "unknown"  # cannot happen with mbqi off, but be safe
         smt2 = None
-        if verdict == "unknown" or (self.cross_check and verdict == "unsat"):
+        if fallback and (verdict == "unknown" or (self.cross_check and verdict == "unsat")):
             smt2 = "(set-logic ALL)\n" + s.to_smt2()
             t2 = time.time()
-            v2, _ = run_cvc5(smt2, self.query_timeout_ms / 1000.0, strings=strings)
+            v2, _ = run_cvc5(smt2, min(self.query_timeout_ms / 1000.0, 20.0), strings=strings)
             dt2 = time.time() - t2
             self.by_backend.setdefault("cvc5", {"queries": 0, "seconds": 0.0})
             self.by_backend["cvc5"]["queries"] += 1
             self.by_backend["cvc5"]["seconds"] += dt2
             if verdict == "unknown":
-                if v2 in ("unsat", "sat"):
+                if v2 == "unsat" or (v2 == "sat" and not quantified):
                     verdict, backend = v2, "cvc5"
                 dt += dt2
             elif v2 == "sat":  # z3 unsat, cvc5 sat: disagreement -> undecided
                 verdict, backend = "unknown", "z3-vs-cvc5-disagree"
             elif v2 == "unsat":
                 backend = "z3+cvc5"
+        if fallback and verdict == "unknown" and quantified:
+            # candidate counter-model from the ground part
+            g = z3.Solver()
+            g.set("timeout", min(self.query_timeout_ms, 5000))
+            for h in hyps:
+                if not _has_quantifier(h):
+                    g.add(h)
+            g.add(goal_negation)
+            try:
+                if g.check() == z3.sat:
+                    model = g.model()
+            except z3.Z3Exception:
+                pass
         self.by_backend.setdefault("z3", {"queries": 0, "seconds": 0.0})
         self.by_backend["z3"]["queries"] += 1
         self.by_backend["z3"]["seconds"] += dt
@@ -243,24 +284,63 @@ class Session:
             ob.model = model_to_dict(model) if model is not None else None
             self._attach_replay(ob, replay, model, solver_out=f"{backend}: sat")
         else:
-            ob.status = "undecided"
-            ob.detail = dict(ob.detail or {}, solver=backend, verdict="unknown")
+            self._not_proved(ob, replay, model, backend)
+        return ob
+
+    def _not_proved(self, ob, replay, model, backend, reason="solver gave no proof (unknown)"):
+        """An obligation the verifier could not discharge. It is a violation when a replay search on the real code
+        finds a failing input, or when the obligation is one that is discharged on the unchanged tree
+        (spec/baseline_obligations.json); otherwise it is undecided."""
+        ob.model = model_to_dict(model) if model is not None else None
+        info = None
+        if replay is not None:
+            self._attach_replay(ob, replay, model, solver_out=f"{backend}: {reason}")
+            info = ob.replay
+        if info is not None and info.get("confirmed_on_real_code"):
+            ob.status = "failed"
+            return
+        if ob.id.split("#")[0] in self.baseline():
+            ob.status = "failed"
+            if ob.replay is None:
+                self._attach_replay(ob, None, model, solver_out=f"{backend}: {reason}; obligation is discharged on the unchanged tree")
+            return
+        ob.status = "undecided"
+        ob.replay = None
+        ob.detail = dict(ob.detail or {}, solver=backend, verdict=reason)
+
+    def baseline(self):
+        if not hasattr(self, "_baseline"):
+            path = os.path.join(ROOT, "spec", "baseline_obligations.json")
+            try:
+                self._baseline = set(json.load(open(path)).get(self.prop, []))
+            except (OSError, ValueError):
+                self._baseline = set()
+        return self._baseline
+
+    def not_proved(self, oid, reason, *, function=None, kind="post", replay=None):
+        """engine-level failure to establish an obligation whose VC is well-formed (e.g. an unexpected exception
+        path that cannot be refuted)"""
+        ob = self._new(oid, kind, function)
+        ob.backend = "z3"
+        ob.detail = {"reason": str(reason)[:800]}
+        self._not_proved(ob, replay, None, "z3", reason=str(reason)[:300])
         return ob
 
     def cover(self, oid, hyps, function=None):
         """Vacuity guard: the hypotheses alone must be satisfiable."""
         ob = self._new(oid, "cover", function)
-        verdict, backend, dt, _, _ = self._solve(list(hyps), z3.BoolVal(True))
+        verdict, backend, dt, _, _ = self._solve(list(hyps), z3.BoolVal(True), fallback=False, timeout_ms=3000)
         ob.backend, ob.seconds = backend, dt
-        ob.status = "ok" if verdict == "sat" else ("broken" if verdict == "unsat" else "undecided")
+        # with quantified hypotheses z3 cannot exhibit a model; "not refuted" is what is checked
+        ob.status = "broken" if verdict == "unsat" else "ok"
         return ob
 
     def canary(self, oid, hyps, wrong_goal, function=None):
         """Vacuity guard: a deliberately wrong goal must NOT be discharged."""
         ob = self._new(oid, "canary", function)
-        verdict, backend, dt, _, _ = self._solve(list(hyps), z3.Not(wrong_goal))
+        verdict, backend, dt, _, _ = self._solve(list(hyps), z3.Not(wrong_goal), fallback=False, timeout_ms=3000)
         ob.backend, ob.seconds = backend, dt
-        ob.status = "ok" if verdict == "sat" else ("broken" if verdict == "unsat" else "undecided")
+        ob.status = "broken" if verdict == "unsat" else "ok"
         return ob
 
     # -- non-solver obligations -----------------------------------------------------------------
@@ -322,6 +402,52 @@ class Session:
             "replay_error": info.get("replay_error"),
         }
 
+    # -- merging results of worker processes ------------------------------------------------------
+    def export(self):
+        return {
+            "obligations": [
+                {"id": o.id, "kind": o.kind, "function": o.function, "status": o.status, "backend": o.backend,
+                 "seconds": o.seconds, "model": o.model, "detail": _jsonable(o.detail), "replay": _jsonable(o.replay)}
+                for o in self.obligations
+            ],
+            "functions": self.functions,
+            "trusted_base": self.trusted_base,
+            "assumptions": self.assumptions,
+            "bounded": self.bounded,
+            "notes": self.notes,
+            "samples": self.samples,
+            "by_backend": self.by_backend,
+            "solver_seconds": self.solver_seconds,
+            "crashed": self.crashed,
+            "extra_coverage": _jsonable(self.extra_coverage),
+        }
+
+    def absorb(self, exp):
+        for d in exp["obligations"]:
+            ob = self._new(d["id"], d["kind"], d["function"])
+            ob.status, ob.backend, ob.seconds = d["status"], d["backend"], d["seconds"]
+            ob.model, ob.detail, ob.replay = d["model"], d["detail"], d["replay"]
+        self.functions.update(exp["functions"])
+        self.trust(*exp["trusted_base"])
+        self.assume(*exp["assumptions"])
+        self.bounded.extend(exp["bounded"])
+        self.notes.extend(exp["notes"])
+        for smp in exp["samples"]:
+            if len(self.samples) < 6:
+                self.samples.append(smp)
+        for k, v in exp["by_backend"].items():
+            b = self.by_backend.setdefault(k, {"queries": 0, "seconds": 0.0})
+            b["queries"] += v["queries"]
+            b["seconds"] += v["seconds"]
+        self.solver_seconds += exp["solver_seconds"]
+        if exp["crashed"] and not self.crashed:
+            self.crashed = exp["crashed"]
+        for k, v in (exp.get("extra_coverage") or {}).items():
+            if isinstance(v, int) and isinstance(self.extra_coverage.get(k), int):
+                self.extra_coverage[k] += v
+            else:
+                self.extra_coverage.setdefault(k, v)
+
     # -- reporting ------------------------------------------------------------------------------
     def _load_known(self):
         out = []
@@ -375,7 +501,7 @@ class Session:
             suffix = "" if (ob.replay or {}).get("confirmed_on_real_code") else " no-failing-input-found"
             lines.append(f"VIOLATION property={self.prop} replay={rel} obligation={ob.id}{suffix}")
 
-        n_obl = len(proof_obs)
+        n_obl = len([o for o in proof_obs if o.known is None])
         n_dis = sum(1 for o in proof_obs if o.status == "discharged")
         # obligations that fail only as listed known findings are reported, not counted as discharged
         level = "proof"
